@@ -378,6 +378,13 @@ def closeAll (l : List LiveS) (a : Ip) : List LiveS :=
 def closeVanished (rows : List SnapRow) (l : List LiveS) : List LiveS :=
   l.map fun s => if (rowOf rows s.addr).isNone then { s with closing := true } else s
 
+/-- what the remote end saw first from the session: an OPEN carrying the neighbour's configured
+    AS, hold time and capabilities (or, for a connection already told to close, only the NOTIFICATION) -/
+def openOk (cfg : PeerCfg) : Res → Bool
+  | .discOpen asn hold _ caps => asn = cfg.localAsn && hold = cfg.hold && caps = cfg.caps
+  | .discNotif .. => true
+  | _ => false
+
 def checkDisc (k : Nat) (st : S) (sid : Nat) (o : StepObs) : Verdict × S :=
   match st.live.find? (fun s => s.sid = sid) with
   | none => (firstFail k [ (o.res = .noSession, "disconnect-of-unknown-session"), (o.snap == st.rows, "state-changed") ], st)
@@ -385,10 +392,7 @@ def checkDisc (k : Nat) (st : S) (sid : Nat) (o : StepObs) : Verdict × S :=
       let live := st.live.filter fun x => x.sid != sid
       let wasDyn := (rowOf st.rows s.addr).map (·.dyn) = some true
       let v := firstFail k [
-        (match o.res with
-          | .discOpen asn hold _ caps => asn = s.cfg.localAsn && hold = s.cfg.hold && caps = s.cfg.caps
-          | .discNotif .. => true
-          | _ => false, "open-differs-from-configuration"),
+        (openOk s.cfg o.res, "open-differs-from-configuration"),
         (imp (wasDyn && (liveFor live s.addr).isEmpty) (rowOf o.snap s.addr).isNone, "dynamic-neighbour-not-removed"),
         (dynRowsHaveConn o.snap live, "dynamic-neighbour-without-connection") ]
       (v, { st with rows := o.snap, live := closeVanished o.snap live
@@ -398,17 +402,22 @@ inductive Api where
   | enable | disable | delete | shutdown | reset
   deriving DecidableEq, Repr
 
+/-- enable / disable set the administrative state, delete removes the neighbour, shutdown and
+    reset leave the administrative state alone -/
+def adminStateOk (kind : Api) (row row' : Option SnapRow) : Bool :=
+  match kind with
+  | .delete => row'.isNone
+  | .enable => imp row.isSome (row'.map (·.adminDown) = some false)
+  | .disable => imp row.isSome (row'.map (·.adminDown) = some true)
+  | _ => row'.map (·.adminDown) = row.map (·.adminDown)
+
 def checkApi (k : Nat) (st : S) (kind : Api) (a : Ip) (o : StepObs) : Verdict × S :=
   let row := rowOf st.rows a
   let row' := rowOf o.snap a
   let live := if kind = .enable || row.isNone then st.live else closeAll st.live a
   let v := firstFail k [
     (o.res = .api row.isSome, "api-result"),
-    (match kind with
-      | .delete => row'.isNone
-      | .enable => imp row.isSome (row'.map (·.adminDown) = some false)
-      | .disable => imp row.isSome (row'.map (·.adminDown) = some true)
-      | _ => row'.map (·.adminDown) = row.map (·.adminDown), "admin-state"),
+    (adminStateOk kind row row', "admin-state"),
     (dynRowsHaveConn o.snap live, "dynamic-neighbour-without-connection") ]
   (v, { st with rows := o.snap, live := closeVanished o.snap live
                 known := st.known.filter fun kn => (rowOf o.snap kn.addr).isSome })
